@@ -1,2 +1,4 @@
-/-! Driver for C12 (stub: not built yet). -/
-def main : IO Unit := pure ()
+import Drivers.Proto
+import PymocaVerif.Model.GenJson
+/-! Driver for C12: the same handler as C11; requests carry the three representation options. -/
+def main : IO Unit := Drivers.serve PymocaVerif.GenJson.handle
